@@ -113,6 +113,18 @@ def _impl(cls, name, table, absent=".absent", want_property=None):
     q = _qual(obj)
     if want_property is not None and isinstance(obj, property) != want_property:
         return ".custom %s" % lstr(q + " (descriptor kind)")
+    # A class the table knows by name that sits between `cls` and the class defining the function (inclusive) is
+    # the nearest authority on what the accessor does: `NumericResponseMask` is "numeric with MASK" also when a
+    # maintainer moves its `value` into the base class and leaves a hook (`_interpret`) behind.  Like `_owner_key`
+    # this is a GUESS about restructured code that the exhaustive correspondence confirms or refutes.
+    for e in cls.__mro__:
+        if e is object:
+            break
+        key = "%s:%s.%s" % (e.__module__, e.__qualname__, name)
+        if key in table:
+            return table[key]
+        if e is _k:
+            break
     if q in table:
         return table[q]
     k = _owner_key(cls, name, obj, table)
